@@ -30,7 +30,10 @@ RULE = ('every DAG shape over {Config, annotated-tag Config, positional '
         'Tag.new(v), assign Tag.new(), set_tagged, select(tag).replace} over '
         'every tag and over keyword, positional and **kwargs arguments; after '
         'each state: list_tags, survival through copy/deepcopy/cast/pickle/'
-        'JSON/diff, build of TaggedValues')
+        'JSON/diff (also a diff that moves the tagged nodes), build of '
+        'TaggedValues; plus every constructor call over {absent, plain, '
+        'Tag.new(v), Tag.new()} per argument x keyword/positional x Config/'
+        'Partial x callables with / without annotation tags')
 ASSUMPTIONS = [
     'the twin is edited by writing __arguments__/__argument_tags__ directly '
     '(documented storage), never through the tagging API',
@@ -97,7 +100,74 @@ def bounds(tier):
 
 
 def units(tier, seed):
-  return list(range(NCHUNK))
+  return list(range(NCHUNK)) + ['construct']
+
+
+def run_construct(res):
+  """Constructor calls: every combination of {absent, plain value,
+  Tag.new(v), Tag.new()} per argument x keyword / positional passing x
+  Config / Partial x callables with and without annotation tags. The
+  argument's tags are the annotation's plus the TaggedValue's."""
+  fns = {'node': (N.node, ['x', 'y']), 'node_tagged': (N.node_tagged,
+                                                      ['x', 'y']),
+         'node_kw': (N.node_kw, ['x', 'extra']),
+         'node_pos': (N.node_pos, [0, 'a'])}
+  options = [('absent',), ('plain',)] + [
+      ('tv', t, hv) for t in TAGS for hv in (True, False)]
+  for cname, cls in (('Config', fdl.Config), ('Partial', fdl.Partial)):
+    for fname, (fn, keys) in fns.items():
+      for o0, o1 in itertools.product(options, repeat=2):
+        for style in ('keyword', 'positional'):
+          if style == 'positional' and (fname == 'node_kw' or
+                                        o0[0] == 'absent'):
+            continue
+          case = {'construct': [cname, fname, list(o0), list(o1), style]}
+
+          def value(o, i):
+            if o[0] == 'plain':
+              return f'P{i}'
+            return TAGS[o[1]].new(f'T{i}') if o[2] else TAGS[o[1]].new()
+
+          args, kwargs = [], {}
+          for i, (key, o) in enumerate(zip(keys, (o0, o1))):
+            if o[0] == 'absent':
+              continue
+            if style == 'positional' or isinstance(key, int):
+              args.append(value(o, i))
+            else:
+              kwargs[key] = value(o, i)
+          if isinstance(keys[0], int) and o0[0] == 'absent' and args:
+            continue      # cannot pass `a` positionally without p0
+          res.states += 1
+          res.evals += 1
+          res.nontrivial += 1
+          res.transitions += 1
+          try:
+            real = cls(fn, *args, **kwargs)
+          except Exception as e:  # pylint: disable=broad-except
+            res.violation(f'C14/constructor-raises/{fname}',
+                          f'{case}: {type(e).__name__}: {e}', case)
+            continue
+          twin = cls(fn)
+          for i, (key, o) in enumerate(zip(keys, (o0, o1))):
+            if o[0] == 'plain':
+              twin.__arguments__[key] = f'P{i}'
+            elif o[0] == 'tv':
+              twin.__argument_tags__[key].add(TAGS[o[1]])
+              if o[2]:
+                twin.__arguments__[key] = f'T{i}'
+          res.outcomes[f'construct:{fname}'] += 1
+          if canon.canon_cfg(real) != canon.canon_cfg(twin):
+            res.violation(
+                f'C14/constructor-tags/{fname}',
+                f'{case}: real {real!r} tags {dict(real.__argument_tags__)} '
+                f'model {twin!r} tags {dict(twin.__argument_tags__)}', case)
+            continue
+          for sup in (False, True):
+            if set(tagging.list_tags(real, add_superclasses=sup)) != (
+                model_tags(twin, sup)):
+              res.violation(f'C14/list_tags(add_superclasses={sup})',
+                            f'{case}', case)
 
 
 def all_cases(b):
@@ -307,17 +377,52 @@ def state_checks(real, twin, untagged_twin_maker, res, case):
       return bad(f'tags-lost-or-changed/{name}',
                  f'after {name}: {out!r}\n expected {twin!r}')
   # diff application from an untagged twin
+  d = None
   try:
     base = untagged_twin_maker()
     d = diffing.build_diff(base, real)
+  except Exception as e:  # pylint: disable=broad-except
+    res.counters['build_diff_raised_(judged_by_C10)'] += 1
+  if d is not None:
     tgt = untagged_twin_maker()
-    diffing.apply_diff(d, tgt)
+    try:
+      diffing.apply_diff(d, tgt)
+    except Exception as e:  # pylint: disable=broad-except
+      return bad('apply_diff-of-tag-diff-raises',
+                 f'{type(e).__name__}: {e}; diff {d}')
     res.transitions += 1
     if canon.canon_cfg(tgt) != want:
       return bad('tags-lost-or-changed/diff',
                  f'after apply_diff: {tgt!r}\n expected {twin!r}')
-  except Exception as e:  # pylint: disable=broad-except
-    res.counters['diff_raised_(judged_by_C10)'] += 1
+  # the same from an untagged twin whose two root arguments are swapped (the
+  # diff then moves nodes as well as adding tags to their arguments)
+  def swapped():
+    base = untagged_twin_maker()
+    k0, k1 = arg_keys(base)
+    a = base.__arguments__
+    if k0 in a and k1 in a and not isinstance(k0, int):
+      a[k0], a[k1] = a[k1], a[k0]
+      return base
+    return None
+  d = None
+  base = swapped()
+  if base is not None:
+    try:
+      d = diffing.build_diff(base, real)
+    except Exception as e:  # pylint: disable=broad-except
+      res.counters['build_diff_raised_(judged_by_C10)'] += 1
+  if d is not None:
+    tgt = swapped()
+    try:
+      diffing.apply_diff(d, tgt)
+    except Exception as e:  # pylint: disable=broad-except
+      return bad('apply_diff-of-tag-diff-raises/with-moves',
+                 f'{type(e).__name__}: {e}; diff {d}')
+    res.transitions += 1
+    if canon.canon_cfg(tgt) != want:
+      return bad('tags-lost-or-changed/diff-with-moves',
+                 f'after apply_diff from swapped untagged base: {tgt!r}\n '
+                 f'expected {twin!r}')
   return True
 
 
@@ -407,6 +512,10 @@ def _keyclass(op):
 def run_unit(unit, tier, seed):
   b = bounds(tier)
   res = core.Result()
+  if unit == 'construct':
+    run_construct(res)
+    res.sample({'constructor_calls': res.states})
+    return res
   for idx, shape in enumerate(all_cases(b)):
     if idx % NCHUNK != unit:
       continue
@@ -424,6 +533,12 @@ def _shape(x):
 
 def replay(case):
   res = core.Result()
+  if 'construct' in case:
+    run_construct(res)
+    res.violations = [v for v in res.violations if v['case'] == case]
+    for v in res.violations:
+      print(v['what'])
+    return res
   shape = _shape(case['shape'])
   real, twin = make(shape), make(shape)
   print('config:', real)
